@@ -2,6 +2,8 @@ package props
 
 import (
 	"fmt"
+	"go/token"
+	"golang.org/x/tools/go/ssa"
 	"regexp"
 	"strings"
 
@@ -47,6 +49,7 @@ func laNorm(k string) string {
 		return k
 	}
 	names := map[string]string{}
+	d = strings.ReplaceAll(d, "*", "") // a loop variable of the caller (rendered *i) is a parameter (i) after extraction
 	out := laIdent.ReplaceAllStringFunc(d, func(id string) string { return "\x00" + id + "\x00" })
 	var b strings.Builder
 	parts := strings.Split(out, "\x00")
@@ -104,6 +107,36 @@ func laManualReason(k string) string {
 	return laManualNorm[laNorm(k)]
 }
 
+// laViaCaller: a reviewed read that was moved verbatim into a private helper with a single calling function is
+// still the reviewed read (loop variables of the caller become parameters of the helper).
+func laViaCaller(c *an.Ctx, fn *ssa.Function, desc string, seen map[string]int) string {
+	if token.IsExported(fn.Name()) || fn.Parent() != nil {
+		return ""
+	}
+	var caller *ssa.Function
+	for _, cs := range c.P.CallSites(func(x ssa.Instruction) bool { return an.IsCallTo(x, fn) }) {
+		if caller != nil && caller != cs.Fn {
+			return ""
+		}
+		caller = cs.Fn
+	}
+	if caller == nil {
+		return ""
+	}
+	k := laNorm(laKey(an.RelName(caller), desc))
+	r := laManualNorm[k]
+	if r == "" {
+		return ""
+	}
+	if seen != nil {
+		if seen[k] >= laManualCount[k] {
+			return ""
+		}
+		seen[k]++
+	}
+	return r
+}
+
 var opPhi = regexp.MustCompile(`φ\("!@rx"\|[^#]*\|operator\)`)
 
 func laKey(fn string, desc string) string {
@@ -147,6 +180,9 @@ func lookaheadRule(c *an.Ctx, rule string, pkgs []string, minCount int) {
 				manualSeen[laNorm(k)]++
 				manual++
 				c.Note(rule, key, ob.Instr.Pos(), "not decided mechanically; manual argument: "+laManualReason(k))
+			case laViaCaller(c, fn, ob.Desc, manualSeen) != "":
+				manual++
+				c.Note(rule, key, ob.Instr.Pos(), "not decided mechanically; reviewed in the only caller of this private helper: "+laViaCaller(c, fn, ob.Desc, nil))
 			default:
 				c.Bad(rule, key, ob.Instr.Pos(), "look-ahead / fixed-position read without a dominating bound: "+ob.Why+"; input chosen by a configuration author or an HTTP peer can make this index out of range (panic)", ob.Facts.Strings()...)
 			}
